@@ -235,10 +235,10 @@ def _histories(n, core, vec_targets, reads=True):
 def cases(tier, seed):
     if tier == 'quick':
         plan = [(1, False, None, list(SETUPS), True),
-                (2, 'nolight', ('v0', 'v2'), ['rshift', 'ctor-list', 'dict-of-lists'], False)]
+                (2, 'nolight', ('v0', 'v2'), ['rshift', 'ctor-list'], False)]
     else:
         plan = [(1, False, None, list(SETUPS), True),
-                (2, False, None, list(SETUPS), True),
+                (2, False, None, [k for k in SETUPS if k != 'ctor-tuple'], True),
                 (3, True, ('v0', 'v2'), ['rshift', 'ctor-list'], False)]
     for n, core, vt, setups, reads in plan:
         for h in _histories(n, core, vt, reads):
@@ -480,13 +480,13 @@ def nontrivial(case):
 if __name__ == '__main__':
     main('C01', cases, evaluate,
          rule='exhaustive histories over three root vectors (len 3) + a table built from two of them by 5 construction '
-              'paths; alphabet of ~20 vector derivations, ~27 table derivations (copy/slice/mask/select/column handle/>>/<</'
+              'paths; alphabet of 20 vector derivations, 28 table derivations (copy/slice/mask/select/column handle/>>/<</'
               'joins/sort/T/math/aggregate/window), 14 vector write forms, 22 table write forms (cell/row/column/region/'
               'live column handle/attribute and indexed-attribute assignment/rename, incl. refused variants), pure reads in '
               'last position; after every step every live object is compared with its pre-step snapshot under the frame rule '
               'of the statement. distinct = distinct (setup, op-name sequence) containing a write',
-         bound=lambda tier: ({'max_steps': 2, 'len1_setups': 5, 'len2_setups': 3, 'len2_vector_targets': 'v0,v2+derived', 'len2_reads': False, 'len2_alphabet': 'minus 13 near-duplicate ops'}
+         bound=lambda tier: ({'max_steps': 2, 'len1_setups': 5, 'len2_setups': 2, 'len2_vector_targets': 'v0,v2+derived', 'len2_reads': False, 'len2_alphabet': 'minus 13 near-duplicate ops'}
                              if tier == 'quick' else
-                             {'max_steps': 3, 'len1_setups': 5, 'len2_setups': 5, 'len3_setups': 2,
-                              'len3_alphabet': 'core subset (28 ops)'}),
+                             {'max_steps': 3, 'len1_setups': 5, 'len2_setups': 4, 'len3_setups': 2,
+                              'len3_alphabet': 'core subset (21 ops)'}),
          nontrivial=nontrivial)
